@@ -2,7 +2,7 @@ import AquaVerif.Proofs.RootDevelopment
 import AquaVerif.Proofs.RealInstance
 /-
 Non-vacuity of the premises of `Proofs/RootDevelopment.lean`: the real power function
-`x ** y = exp (y · log x)` satisfies `PowLaws`, the identity rounding satisfies `SkipOK`, and a
+(`Real.rpow`, `= exp (y · log x)` for a positive base) satisfies `PowLaws`, the identity rounding satisfies `SkipOK`, and a
 concrete crop / two-layer profile (with a restrictive second layer) satisfies `RdHyp`.
 -/
 
@@ -10,14 +10,14 @@ namespace Aqua
 open Aqua.Response
 
 theorem powLaws_real : PowLaws realFn where
-  pow_nonneg := fun x y _ => (Real.exp_pos _).le
+  pow_nonneg := fun x y hx => realFn_pow_nonneg hx.le y
   pow_le_one := fun x y hx hx1 hy => by
-    show Real.exp (y * Real.log x) ≤ 1
+    rw [realFn_pow_of_pos hx]
     rw [← Real.exp_zero]
     apply Real.exp_le_exp.mpr
     exact mul_nonpos_of_nonneg_of_nonpos hy.le (Real.log_nonpos hx.le hx1)
   pow_mono := fun x x' y hx hxx hy => by
-    show Real.exp (y * Real.log x) ≤ Real.exp (y * Real.log x')
+    rw [realFn_pow_of_pos hx, realFn_pow_of_pos (lt_of_lt_of_le hx hxx)]
     apply Real.exp_le_exp.mpr
     exact mul_le_mul_of_nonneg_left (Real.log_le_log hx hxx) hy.le
 
